@@ -362,6 +362,10 @@ def show_region(r):
         return "Phi(%s)" % " | ".join(show_region(x) for x in r[1])
     if k == "Decode":
         return "Decode(%s)" % show_region(r[1])
+    if k in ("Var", "Field"):
+        return "%s(%s)" % (k, r[1])
+    if len(r) != 3:
+        return repr(r)
     return "%s(%r, %s)" % (k, r[1], show_region(r[2]))
 
 
@@ -528,7 +532,7 @@ def mut_effects(body):
         for i, a in enumerate(raw):
             tgt = mut_target(a)
             derived = False
-            if tgt is None:
+            if tgt is None and not is_plumbing(path):
                 tgt = contains_mut_target(a, body)
                 derived = tgt is not None
             if tgt is not None:
@@ -545,6 +549,15 @@ def mut_effects(body):
                     "loop": next((h for h, blk in loops.items() if bb in blk), None),
                 })
     return out
+
+
+PLUMBING = ("std::ops::Try::branch", "std::ops::FromResidual::from_residual", "std::iter::IntoIterator::into_iter", "std::convert::Into::into", "std::convert::From::from")
+
+
+def is_plumbing(path):
+    if not isinstance(path, str):
+        return False
+    return any(path == p or path.endswith(p.split("::")[-2] + ">::" + p.split("::")[-1]) for p in PLUMBING) or "as std::ops::Try>::branch" in path or "FromResidual" in path
 
 
 def mut_target(a):
@@ -586,8 +599,11 @@ def _call_may_hold_borrow(body, a):
     t = body.term(a[3])
     if t["t"] != "call":
         return True
-    ty = body.locals[t["dest"]["l"]]["ty"] if not t["dest"]["proj"] else "&"
-    return "&" in ty or "'" in ty
+    ty = body.locals[t["dest"]["l"]]["ty"] if not t["dest"]["proj"] else "&mut"
+    # a mutable borrow can hide in `&mut T` or behind a lifetime *parameter* of an ADT (Entry<'_, K>);
+    # a plain shared reference (&'a str) cannot carry one.
+    import re
+    return "&mut" in ty or re.search(r"[<,]\s*'", ty) is not None
 
 
 def contains_mut_target(a, body=None, depth=0):
@@ -729,3 +745,77 @@ def body_summary(facts, key):
         ga = [(gb, canon_atom(a)) for gb, a in atoms_at(body, b)]
         rets.append({"bb": b, "site": body.site(b), "cls": classify_return(n), "gatoms": ga, "catoms": [c for _, c in ga]})
     return {"key": key, "body": body, "effects": eff, "returns": rets, "loops": loop_of_next(body)}
+
+
+# ====================================================================== rejection lists
+def edge_triggers(body, bb, depth=0):
+    """Canonical atoms of the edges entering block bb (looking through trivial goto blocks)."""
+    out = []
+    preds = body.preds()
+    for p in preds[bb]:
+        if body.is_cleanup(p):
+            continue
+        eg = body.edge_guards(p, bb)
+        if eg is not None:
+            out.append((p, canon_atom(atom_of(eg[0], eg[1]))))
+        else:
+            t = body.term(p)
+            if t["t"] == "goto" and not body.blocks[p]["stmts"] and depth < 4:
+                out.extend(edge_triggers(body, p, depth + 1))
+            elif t["t"] in ("call", "drop") and depth < 4 and not _defines_anything_relevant(body, p):
+                out.extend(edge_triggers(body, p, depth + 1))
+            else:
+                out.append((p, ("fallthrough",)))
+    return out
+
+
+def _defines_anything_relevant(body, p):
+    t = body.term(p)
+    if t["t"] == "drop":
+        return False
+    if t["t"] == "call":
+        # conversions of the error value (Into::into / From::from) are transparent
+        pth = callee_name(t["callee"]) if "path" in t["callee"] else ""
+        return not (pth.endswith("::into") or pth.endswith("::from"))
+    return True
+
+
+def rejections(facts, key):
+    """Every way the body `key` can return an error / None:
+    [{kind: 'err'|'propagate'|'none', error, callee, args(region), triggers, catoms, site, bb}]"""
+    body = facts.body(key)
+    rows = []
+    for (b, n) in returns(body):
+        cls = classify_return(n)
+        ga = [(gb, canon_atom(a)) for gb, a in atoms_at(body, b)]
+        row = {"bb": b, "site": body.site(b), "catoms": [c for _, c in ga], "gatoms": ga, "fn": key}
+        k, v = cls
+        if k == "err":
+            row.update(kind="err", error=error_const(v), errterm=v, triggers=[c for _, c in edge_triggers(body, b)])
+            rows.append(row)
+        elif k == "propagate":
+            c = v
+            if c[0] == "call" and c[1] == "std::option::Option::<T>::ok_or":
+                inner, e = c[2]
+                trig = canon_atom(("is", inner, "None"))
+                row.update(kind="err", error=error_const(e), errterm=e, triggers=[trig], via="ok_or")
+            elif c[0] == "call" and c[1] == "std::result::Result::<T, E>::map_err":
+                row.update(kind="propagate", callee="map_err", args=tuple(_value(y) for y in c[2]), callterm=c)
+            elif c[0] == "call":
+                row.update(kind="propagate", callee=c[1], args=tuple(_value(y) for y in c[2]), callterm=c)
+            else:
+                row.update(kind="propagate", callee="?", args=(), callterm=c)
+            rows.append(row)
+        elif k == "none":
+            row.update(kind="none", error="None", triggers=[c for _, c in edge_triggers(body, b)])
+            rows.append(row)
+        elif k == "tail":
+            row.update(kind="tail", callee=v[1], args=tuple(_value(y) for y in v[2]), callterm=v)
+            rows.append(row)
+        elif k in ("ok", "some"):
+            row.update(kind=k, payload=v)
+            rows.append(row)
+        else:
+            row.update(kind="other", term=v)
+            rows.append(row)
+    return rows
